@@ -46,3 +46,28 @@ Fixpoint oracle (evs : list ev) (os : list (option obs)) : nat :=
   end.
 
 Definition check_hist (evs : list ev) (os : list (option obs)) : nat * nat := (cmp init evs os 0, oracle evs os).
+
+(* ---- the table reader cache: events (reader requests of snapshots, snapshot closes, cleanups) and, after every event,
+   the cache's entries with their reference counts ---- *)
+From Coq Require Import ZArith.
+From LinDBV.C02 Require Cache.
+Definition centries_eqb (a b : list (Cache.file * Z)) : bool :=
+  Nat.eqb (length a) (length b) &&
+  forallb (fun p => match Cache.ref_of (fst p) b with Some r => Z.eqb r (snd p) | None => false end) a.
+Fixpoint ccmp (c : Cache.cst) (evs : list Cache.cev) (os : list (list (Cache.file * Z))) (i : nat) : nat :=
+  match evs, os with
+  | [], [] => 0
+  | e :: evs', o :: os' => let c' := Cache.cstep true c e in
+                           if centries_eqb (Cache.entries c') o then ccmp c' evs' os' (S i) else S i
+  | _, _ => 799
+  end.
+(* oracle: the holders follow from the events alone; a reader an open snapshot holds is in the cache *)
+Fixpoint coracle (c : Cache.cst) (evs : list Cache.cev) (os : list (list (Cache.file * Z))) : nat :=
+  match evs, os with
+  | e :: evs', o :: os' => let c' := Cache.cstep true c e in
+                           if forallb (fun f => match Cache.ref_of f o with Some _ => true | None => false end) (Cache.all_held (Cache.holders c'))
+                           then coracle c' evs' os' else 105
+  | _, _ => 0
+  end.
+Definition check_cache (evs : list Cache.cev) (os : list (list (Cache.file * Z))) : nat * nat :=
+  (ccmp Cache.cinit evs os 0, coracle Cache.cinit evs os).
